@@ -374,6 +374,33 @@ theorem C26_consensus_not_running (forkH height : Nat) (tol : Int) (n me : Nat) 
     consTryChangeView forkH height false tol n me s now = some s := by
   simp [consTryChangeView]
 
+/-- `DPOSManager`: the timer entry point moves the view exactly as `Consensus.TryChangeView` does,
+    and everything the manager adds on top (ResetView broadcast, forwarding of ResetView messages)
+    is switched off by the same height test that selects the V1 schedule — at
+    `ChangeViewV1Height` itself included. -/
+theorem C26_manager_height_gate (forkH height : Nat) (running : Bool) (tol : Int) (n me : Nat)
+    (s : VState) (now : Int) :
+    (mgrOnChangeView forkH height running tol n me s now).map (·.1) =
+        consTryChangeView forkH height running tol n me s now ∧
+    (forkH ≤ height →
+      (∀ s' b, mgrOnChangeView forkH height running tol n me s now = some (s', b) → b = false) ∧
+      mgrForwardsResetView forkH height n me = false) := by
+  constructor
+  · unfold mgrOnChangeView
+    cases consTryChangeView forkH height running tol n me s now <;> rfl
+  · intro h
+    have hlt : ¬ (height < forkH) := by omega
+    constructor
+    · intro s' b hb
+      unfold mgrOnChangeView at hb
+      cases hc : consTryChangeView forkH height running tol n me s now with
+      | none => rw [hc] at hb; cases hb
+      | some x =>
+        rw [hc] at hb
+        simp only [Option.some.injEq, Prod.mk.injEq] at hb
+        rw [← hb.2]; simp [hlt]
+    · simp [mgrForwardsResetView, hlt]
+
 /-- at the fork height itself the V1 schedule is in force (3 arbiters, 50 s: offset 4, not 10). -/
 example : consChangeView 1000 1000 (5 * sec) 3 0 ⟨0, 0, false⟩ (50 * sec) = some ⟨4, 20 * sec, false⟩ ∧
     consTryChangeView 1000 1000 true (5 * sec) 3 0 ⟨0, 0, false⟩ (50 * sec) = some ⟨4, 20 * sec, false⟩ ∧
